@@ -316,5 +316,5 @@ def _check(case):
 
 
 SUBCHECKS = [
-    HypSub("steady", _case, _check, _classify, budget={"quick": 800, "thorough": 16000}),
+    HypSub("steady", _case, _check, _classify, budget={"quick": 800, "thorough": 40000}),
 ]
